@@ -18,6 +18,8 @@ import EPV.Gen.BlakeInitKM
 import EPV.Spec.Blake
 import EPV.Lemmas.Blake
 import EPV.Lemmas.BlakeModuli
+import EPV.Lemmas.BlakeFields
+import EPV.Lemmas.BlakeAccept
 import EPV.Tactics
 
 set_option linter.all false
@@ -26,51 +28,39 @@ open EPV EPV.Gen EPV.Spec.Blake EPV.Blake
 
 namespace EPV.C20
 
-/-- pair (E, K), constructor: an accepting path ends with one positive-definite isotropic material that
-reproduces the two supplied values; the problem parameters and the supplied values are the documented
-admissible ones -/
+/-- pair (E, K): an accepting path of the constructor is an accepting path of `set_elastic_params` on the two
+supplied values, followed by the four problem-parameter checks; the six attributes are what it returned -/
+theorem initEK_bridge (p : BlakeInitEK.P) (h : BlakeInitEK.outcome p = .ok) :
+    BlakeModEK.outcome { youngs_mod := p.youngs_mod, bulk_mod := p.bulk_mod } = .ok ∧ DocumentedProblem p.geometry p.ref_density p.cavity_radius p.pressure_scale
+    ∧ BlakeInitEK.lame_mod p = BlakeModEK.lame_mod { youngs_mod := p.youngs_mod, bulk_mod := p.bulk_mod }
+    ∧ BlakeInitEK.shear_mod p = BlakeModEK.shear_mod { youngs_mod := p.youngs_mod, bulk_mod := p.bulk_mod }
+    ∧ BlakeInitEK.youngs_mod p = BlakeModEK.youngs_mod { youngs_mod := p.youngs_mod, bulk_mod := p.bulk_mod }
+    ∧ BlakeInitEK.poisson_ratio p = BlakeModEK.poisson_ratio { youngs_mod := p.youngs_mod, bulk_mod := p.bulk_mod }
+    ∧ BlakeInitEK.bulk_mod p = BlakeModEK.bulk_mod { youngs_mod := p.youngs_mod, bulk_mod := p.bulk_mod }
+    ∧ BlakeInitEK.long_mod p = BlakeModEK.long_mod { youngs_mod := p.youngs_mod, bulk_mod := p.bulk_mod } := by
+  unfold BlakeInitEK.outcome at h
+  unfold BlakeInitEK.lame_mod BlakeInitEK.shear_mod BlakeInitEK.youngs_mod BlakeInitEK.poisson_ratio BlakeInitEK.bulk_mod BlakeInitEK.long_mod
+  epv_walk (
+    simp only [epv_tree, epv_cond, DocumentedProblem] at *
+    simp only [*, if_true, if_false, not_true_eq_false, not_false_eq_true, and_self, true_and]
+    exact ⟨rfl, rfl, rfl, rfl, rfl, rfl⟩)
+
+/-- pair (E, K), constructor: on acceptance the six attributes are one positive-definite isotropic material that
+reproduces the two supplied values (the hypotheses of the C15 field theorems hold for the constructed solver) -/
 theorem initEK_ok (p : BlakeInitEK.P) (h : BlakeInitEK.outcome p = .ok) :
     IsoMaterial (BlakeInitEK.lame_mod p) (BlakeInitEK.shear_mod p) (BlakeInitEK.youngs_mod p) (BlakeInitEK.poisson_ratio p) (BlakeInitEK.bulk_mod p) (BlakeInitEK.long_mod p)
-      ∧ BlakeInitEK.youngs_mod p = p.youngs_mod ∧ BlakeInitEK.bulk_mod p = p.bulk_mod ∧ DocumentedProblem p.geometry p.ref_density p.cavity_radius p.pressure_scale
-      ∧ Kind.GivenOk .youngs p.youngs_mod ∧ Kind.GivenOk .bulk p.bulk_mod := by
-  epv_paths (
-    simp only [epv_cond] at *
-    simp only [epv_leaf, Kind.GivenOk]
-    simp only [not_le, not_lt] at *
-    have hE : 0 < p.youngs_mod := by linarith
-    have hK : 0 < p.bulk_mod := by linarith
-    have h6K : 0 < 6 * p.bulk_mod := by linarith
-    have h9 : 0 < 9 * p.bulk_mod - p.youngs_mod := by
-      have := (lt_div_iff₀ h6K).mp ‹(-1 : ℝ) < _›
-      linarith
-    have h1 : 9 * p.bulk_mod - p.youngs_mod ≠ 0 := ne_of_gt h9
-    have hK0 : p.bulk_mod ≠ 0 := ne_of_gt hK
-    have e1 : 3 * (3 * p.bulk_mod * (3 * p.bulk_mod - p.youngs_mod) / (9 * p.bulk_mod - p.youngs_mod))
-          + 2 * (3 * p.bulk_mod * p.youngs_mod / (9 * p.bulk_mod - p.youngs_mod)) = 3 * p.bulk_mod := by
-      fsimp; ring1
-    have e2 : 3 * p.bulk_mod * (3 * p.bulk_mod - p.youngs_mod) / (9 * p.bulk_mod - p.youngs_mod)
-          + 3 * p.bulk_mod * p.youngs_mod / (9 * p.bulk_mod - p.youngs_mod)
-        = 9 * p.bulk_mod * p.bulk_mod / (9 * p.bulk_mod - p.youngs_mod) := by fsimp; ring1
-    have h2 : 3 * p.bulk_mod * (3 * p.bulk_mod - p.youngs_mod) / (9 * p.bulk_mod - p.youngs_mod)
-          + 3 * p.bulk_mod * p.youngs_mod / (9 * p.bulk_mod - p.youngs_mod) ≠ 0 := by
-      rw [e2]; positivity
-    have h3 : 0 < 3 * (3 * p.bulk_mod * (3 * p.bulk_mod - p.youngs_mod) / (9 * p.bulk_mod - p.youngs_mod))
-          + 2 * (3 * p.bulk_mod * p.youngs_mod / (9 * p.bulk_mod - p.youngs_mod)) := by
-      rw [e1]; positivity
-    have h4 : 0 < 3 * p.bulk_mod * p.youngs_mod / (9 * p.bulk_mod - p.youngs_mod) := by positivity
-    refine ⟨IsoMaterial.of_mul ?_ ?_ ?_ ?_ ?_ ?_, ?_, ?_, ⟨?_, ?_, ?_, ?_⟩, ?_, ?_⟩ <;> first | trivial | assumption | linarith | ring1 | (fsimp <;> ring1) | exact ⟨by linarith, by linarith⟩)
+      ∧ BlakeInitEK.youngs_mod p = p.youngs_mod ∧ BlakeInitEK.bulk_mod p = p.bulk_mod := by
+  obtain ⟨hm, -, e1, e2, e3, e4, e5, e6⟩ := initEK_bridge p h
+  rw [e1, e2, e3, e4, e5, e6]
+  exact EPV.Blake.modEK_ok _ hm
 
 /-- pair (E, K): the constructor **accepts ⇔ the input is documented-valid** -/
 theorem initEK_accepts_iff (p : BlakeInitEK.P) :
     BlakeInitEK.outcome p = .ok ↔ (DocumentedPair .youngs .bulk p.youngs_mod p.bulk_mod ∧ ¬ NearSingular p.youngs_mod (9 * p.bulk_mod)) ∧ DocumentedProblem p.geometry p.ref_density p.cavity_radius p.pressure_scale := by
   constructor
   · intro h
-    obtain ⟨m, e1, e2, d, g1, g2⟩ := initEK_ok p h
-    refine ⟨⟨⟨g1, g2, _, _, m.shear_pos, m.bulk_pos, ?_, ?_⟩, ?_⟩, d⟩
-    · rw [← e1]; exact m.kind_of.2.2.1
-    · rw [← e2]; exact m.kind_of.2.2.2.2.1
-    · clear m e1 e2 d g1 g2
-      epv_paths (simp only [epv_cond] at *; simp only [NearSingular, reltol]; assumption)
+    obtain ⟨hm, d, -⟩ := initEK_bridge p h
+    exact ⟨(EPV.Blake.modEK_accepts_iff _).mp hm, d⟩
   · rintro ⟨⟨⟨hx, hy, L, G, hG, hB, h1, h2⟩, hband⟩, hgeo, hrho, hrad, hprs⟩
     simp only [Kind.of, Kind.GivenOk] at hx hy h1 h2
     have hLG : 0 < L + G := by linarith
@@ -104,57 +94,59 @@ theorem initEK_accepts_iff (p : BlakeInitEK.P) :
     have hc10 : BlakeInitEK.c10 p := by simp only [epv_cond]; exact hprs
     simp only [epv_tree, hc0, hc1, hc2, hc4, hc5, hc6, hc7, hc8, hc9, hc10, if_true, if_false, ite_self]
 
+/-- pair (E, K): **the constructed solver is in the domain of the C15 field theorems** — the attributes `_run` reads
+(a, ρ₀, P₀ as supplied, λ, G, ν, M as the constructor computed them) form an admissible problem
+(`EPV.Blake.Admissible`: one positive-definite isotropic material, ρ₀, a, P₀ > 0) -/
+theorem initEK_admissible (p : BlakeInitEK.P) (h : BlakeInitEK.outcome p = .ok) :
+    EPV.Blake.Admissible
+      { cavity_radius := p.cavity_radius, lame_mod := BlakeInitEK.lame_mod p, long_mod := BlakeInitEK.long_mod p,
+        poisson_ratio := BlakeInitEK.poisson_ratio p, pressure_scale := p.pressure_scale, ref_density := p.ref_density,
+        shear_mod := BlakeInitEK.shear_mod p } := by
+  obtain ⟨m, -, -⟩ := initEK_ok p h
+  obtain ⟨-, hρ, ha, hP⟩ := (initEK_bridge p h).2.1
+  exact ⟨⟨_, _, m⟩, hρ, ha, hP⟩
+
 /-- pair (E, K): the constructor returns or raises `ValueError`, nothing else -/
 theorem initEK_total (p : BlakeInitEK.P) : BlakeInitEK.outcome p = .ok ∨ BlakeInitEK.outcome p = .raise "ValueError" := by
+  unfold BlakeInitEK.outcome
   epv_ok_or_valueError
 
 theorem initEK_raise (p : BlakeInitEK.P) (h : BlakeInitEK.outcome p ≠ .ok) : BlakeInitEK.outcome p = .raise "ValueError" :=
   (initEK_total p).resolve_left h
 
-/-- pair (E, M), constructor: an accepting path ends with one positive-definite isotropic material that
-reproduces the two supplied values; the problem parameters and the supplied values are the documented
-admissible ones -/
+/-- pair (E, M): an accepting path of the constructor is an accepting path of `set_elastic_params` on the two
+supplied values, followed by the four problem-parameter checks; the six attributes are what it returned -/
+theorem initEM_bridge (p : BlakeInitEM.P) (h : BlakeInitEM.outcome p = .ok) :
+    BlakeModEM.outcome { youngs_mod := p.youngs_mod, long_mod := p.long_mod } = .ok ∧ DocumentedProblem p.geometry p.ref_density p.cavity_radius p.pressure_scale
+    ∧ BlakeInitEM.lame_mod p = BlakeModEM.lame_mod { youngs_mod := p.youngs_mod, long_mod := p.long_mod }
+    ∧ BlakeInitEM.shear_mod p = BlakeModEM.shear_mod { youngs_mod := p.youngs_mod, long_mod := p.long_mod }
+    ∧ BlakeInitEM.youngs_mod p = BlakeModEM.youngs_mod { youngs_mod := p.youngs_mod, long_mod := p.long_mod }
+    ∧ BlakeInitEM.poisson_ratio p = BlakeModEM.poisson_ratio { youngs_mod := p.youngs_mod, long_mod := p.long_mod }
+    ∧ BlakeInitEM.bulk_mod p = BlakeModEM.bulk_mod { youngs_mod := p.youngs_mod, long_mod := p.long_mod }
+    ∧ BlakeInitEM.long_mod p = BlakeModEM.long_mod { youngs_mod := p.youngs_mod, long_mod := p.long_mod } := by
+  unfold BlakeInitEM.outcome at h
+  unfold BlakeInitEM.lame_mod BlakeInitEM.shear_mod BlakeInitEM.youngs_mod BlakeInitEM.poisson_ratio BlakeInitEM.bulk_mod BlakeInitEM.long_mod
+  epv_walk (
+    simp only [epv_tree, epv_cond, DocumentedProblem] at *
+    simp only [*, if_true, if_false, not_true_eq_false, not_false_eq_true, and_self, true_and]
+    exact ⟨rfl, rfl, rfl, rfl, rfl, rfl⟩)
+
+/-- pair (E, M), constructor: on acceptance the six attributes are one positive-definite isotropic material that
+reproduces the two supplied values (the hypotheses of the C15 field theorems hold for the constructed solver) -/
 theorem initEM_ok (p : BlakeInitEM.P) (h : BlakeInitEM.outcome p = .ok) :
     IsoMaterial (BlakeInitEM.lame_mod p) (BlakeInitEM.shear_mod p) (BlakeInitEM.youngs_mod p) (BlakeInitEM.poisson_ratio p) (BlakeInitEM.bulk_mod p) (BlakeInitEM.long_mod p)
-      ∧ BlakeInitEM.youngs_mod p = p.youngs_mod ∧ BlakeInitEM.long_mod p = p.long_mod ∧ DocumentedProblem p.geometry p.ref_density p.cavity_radius p.pressure_scale
-      ∧ Kind.GivenOk .youngs p.youngs_mod ∧ Kind.GivenOk .long p.long_mod := by
-  epv_paths (
-    simp only [epv_cond] at *
-    simp only [epv_leaf, Kind.GivenOk]
-    simp only [not_le, not_lt] at *
-    have hE : 0 < p.youngs_mod := by linarith
-    have hM : 0 < p.long_mod := by linarith
-    have hx : 0 ≤ p.youngs_mod ^ (2 : ℕ) + 9 * p.long_mod ^ (2 : ℕ) - 10 * p.youngs_mod * p.long_mod := by linarith
-    generalize hS : (p.youngs_mod ^ (2 : ℕ) + 9 * p.long_mod ^ (2 : ℕ) - 10 * p.youngs_mod * p.long_mod) ^ ((1 : ℝ) / 2) = S at *
-    have hS0 : 0 ≤ S := hS ▸ rpow_half_nonneg _
-    have hS2 : S * S = p.youngs_mod ^ (2 : ℕ) + 9 * p.long_mod ^ (2 : ℕ) - 10 * p.youngs_mod * p.long_mod :=
-      hS ▸ rpow_half_mul_self hx
-    have hEM : 0 < p.youngs_mod * p.long_mod := mul_pos hE hM
-    have h4M : 0 < 4 * p.long_mod := by linarith
-    -- ν < 1/2  gives  S < 3M - E
-    have hlt : S < 3 * p.long_mod - p.youngs_mod := by
-      have h := ‹1 / 4 * (p.youngs_mod - p.long_mod + S) / p.long_mod < 1 / 2›
-      rw [div_lt_iff₀ hM] at h
-      linarith
-    have hG : 0 < 1 / 8 * (3 * p.long_mod + p.youngs_mod - S) := by linarith
-    have hB : 0 < 3 * p.long_mod - p.youngs_mod + S := by
-      by_contra hc
-      rw [not_lt] at hc
-      nlinarith
-    have h2 : 1 / 4 * (p.long_mod - p.youngs_mod + S) + 1 / 8 * (3 * p.long_mod + p.youngs_mod - S) ≠ 0 := by
-      intro h0; linarith
-    have hM0 : p.long_mod ≠ 0 := ne_of_gt hM
-    refine ⟨IsoMaterial.of_mul ?_ ?_ ?_ ?_ ?_ ?_, ?_, ?_, ⟨?_, ?_, ?_, ?_⟩, ?_, ?_⟩ <;> first | trivial | assumption | linarith | ring1 | (fsimp <;> ring1) | linear_combination (1 / 16 : ℝ) * hS2 | (rw [div_mul_eq_mul_div, div_eq_iff (ne_of_gt hM)]; linear_combination (1 / 16 : ℝ) * hS2) | exact ⟨by linarith, by linarith⟩)
+      ∧ BlakeInitEM.youngs_mod p = p.youngs_mod ∧ BlakeInitEM.long_mod p = p.long_mod := by
+  obtain ⟨hm, -, e1, e2, e3, e4, e5, e6⟩ := initEM_bridge p h
+  rw [e1, e2, e3, e4, e5, e6]
+  exact EPV.Blake.modEM_ok _ hm
 
 /-- pair (E, M): the constructor **accepts ⇔ the input is documented-valid** -/
 theorem initEM_accepts_iff (p : BlakeInitEM.P) :
     BlakeInitEM.outcome p = .ok ↔ (DocumentedPair .youngs .long p.youngs_mod p.long_mod) ∧ DocumentedProblem p.geometry p.ref_density p.cavity_radius p.pressure_scale := by
   constructor
   · intro h
-    obtain ⟨m, e1, e2, d, g1, g2⟩ := initEM_ok p h
-    refine ⟨⟨g1, g2, _, _, m.shear_pos, m.bulk_pos, ?_, ?_⟩, d⟩
-    · rw [← e1]; exact m.kind_of.2.2.1
-    · rw [← e2]; exact m.kind_of.2.2.2.2.2
+    obtain ⟨hm, d, -⟩ := initEM_bridge p h
+    exact ⟨(EPV.Blake.modEM_accepts_iff _).mp hm, d⟩
   · rintro ⟨⟨hx, hy, L, G, hG, hB, h1, h2⟩, hgeo, hrho, hrad, hprs⟩
     simp only [Kind.of, Kind.GivenOk] at hx hy h1 h2
     have hLG : 0 < L + G := by linarith
@@ -199,51 +191,59 @@ theorem initEM_accepts_iff (p : BlakeInitEM.P) :
     have hc10 : BlakeInitEM.c10 p := by simp only [epv_cond]; exact hprs
     simp only [epv_tree, hc0, hc1, hc2, hc4, hc5, hc6, hc7, hc8, hc9, hc10, if_true, if_false, ite_self]
 
+/-- pair (E, M): **the constructed solver is in the domain of the C15 field theorems** — the attributes `_run` reads
+(a, ρ₀, P₀ as supplied, λ, G, ν, M as the constructor computed them) form an admissible problem
+(`EPV.Blake.Admissible`: one positive-definite isotropic material, ρ₀, a, P₀ > 0) -/
+theorem initEM_admissible (p : BlakeInitEM.P) (h : BlakeInitEM.outcome p = .ok) :
+    EPV.Blake.Admissible
+      { cavity_radius := p.cavity_radius, lame_mod := BlakeInitEM.lame_mod p, long_mod := BlakeInitEM.long_mod p,
+        poisson_ratio := BlakeInitEM.poisson_ratio p, pressure_scale := p.pressure_scale, ref_density := p.ref_density,
+        shear_mod := BlakeInitEM.shear_mod p } := by
+  obtain ⟨m, -, -⟩ := initEM_ok p h
+  obtain ⟨-, hρ, ha, hP⟩ := (initEM_bridge p h).2.1
+  exact ⟨⟨_, _, m⟩, hρ, ha, hP⟩
+
 /-- pair (E, M): the constructor returns or raises `ValueError`, nothing else -/
 theorem initEM_total (p : BlakeInitEM.P) : BlakeInitEM.outcome p = .ok ∨ BlakeInitEM.outcome p = .raise "ValueError" := by
+  unfold BlakeInitEM.outcome
   epv_ok_or_valueError
 
 theorem initEM_raise (p : BlakeInitEM.P) (h : BlakeInitEM.outcome p ≠ .ok) : BlakeInitEM.outcome p = .raise "ValueError" :=
   (initEM_total p).resolve_left h
 
-/-- pair (ν, K), constructor: an accepting path ends with one positive-definite isotropic material that
-reproduces the two supplied values; the problem parameters and the supplied values are the documented
-admissible ones -/
+/-- pair (ν, K): an accepting path of the constructor is an accepting path of `set_elastic_params` on the two
+supplied values, followed by the four problem-parameter checks; the six attributes are what it returned -/
+theorem initNuK_bridge (p : BlakeInitNuK.P) (h : BlakeInitNuK.outcome p = .ok) :
+    BlakeModNuK.outcome { poisson_ratio := p.poisson_ratio, bulk_mod := p.bulk_mod } = .ok ∧ DocumentedProblem p.geometry p.ref_density p.cavity_radius p.pressure_scale
+    ∧ BlakeInitNuK.lame_mod p = BlakeModNuK.lame_mod { poisson_ratio := p.poisson_ratio, bulk_mod := p.bulk_mod }
+    ∧ BlakeInitNuK.shear_mod p = BlakeModNuK.shear_mod { poisson_ratio := p.poisson_ratio, bulk_mod := p.bulk_mod }
+    ∧ BlakeInitNuK.youngs_mod p = BlakeModNuK.youngs_mod { poisson_ratio := p.poisson_ratio, bulk_mod := p.bulk_mod }
+    ∧ BlakeInitNuK.poisson_ratio p = BlakeModNuK.poisson_ratio { poisson_ratio := p.poisson_ratio, bulk_mod := p.bulk_mod }
+    ∧ BlakeInitNuK.bulk_mod p = BlakeModNuK.bulk_mod { poisson_ratio := p.poisson_ratio, bulk_mod := p.bulk_mod }
+    ∧ BlakeInitNuK.long_mod p = BlakeModNuK.long_mod { poisson_ratio := p.poisson_ratio, bulk_mod := p.bulk_mod } := by
+  unfold BlakeInitNuK.outcome at h
+  unfold BlakeInitNuK.lame_mod BlakeInitNuK.shear_mod BlakeInitNuK.youngs_mod BlakeInitNuK.poisson_ratio BlakeInitNuK.bulk_mod BlakeInitNuK.long_mod
+  epv_walk (
+    simp only [epv_tree, epv_cond, DocumentedProblem] at *
+    simp only [*, if_true, if_false, not_true_eq_false, not_false_eq_true, and_self, true_and]
+    exact ⟨rfl, rfl, rfl, rfl, rfl, rfl⟩)
+
+/-- pair (ν, K), constructor: on acceptance the six attributes are one positive-definite isotropic material that
+reproduces the two supplied values (the hypotheses of the C15 field theorems hold for the constructed solver) -/
 theorem initNuK_ok (p : BlakeInitNuK.P) (h : BlakeInitNuK.outcome p = .ok) :
     IsoMaterial (BlakeInitNuK.lame_mod p) (BlakeInitNuK.shear_mod p) (BlakeInitNuK.youngs_mod p) (BlakeInitNuK.poisson_ratio p) (BlakeInitNuK.bulk_mod p) (BlakeInitNuK.long_mod p)
-      ∧ BlakeInitNuK.poisson_ratio p = p.poisson_ratio ∧ BlakeInitNuK.bulk_mod p = p.bulk_mod ∧ DocumentedProblem p.geometry p.ref_density p.cavity_radius p.pressure_scale
-      ∧ Kind.GivenOk .poisson p.poisson_ratio ∧ Kind.GivenOk .bulk p.bulk_mod := by
-  epv_paths (
-    simp only [epv_cond] at *
-    simp only [epv_leaf, Kind.GivenOk]
-    simp only [not_le, not_lt] at *
-    have hK : 0 < p.bulk_mod := by linarith
-    have h1p : 0 < 1 - 2 * p.poisson_ratio := by linarith
-    have hn : 0 < 1 + p.poisson_ratio := by linarith
-    have hn0 : 1 + p.poisson_ratio ≠ 0 := ne_of_gt hn
-    have e1 : 3 * (3 * p.bulk_mod * p.poisson_ratio / (1 + p.poisson_ratio))
-          + 2 * (3 * p.bulk_mod * (1 - 2 * p.poisson_ratio) / (2 * (1 + p.poisson_ratio))) = 3 * p.bulk_mod := by
-      fsimp; ring1
-    have e2 : 3 * p.bulk_mod * p.poisson_ratio / (1 + p.poisson_ratio)
-          + 3 * p.bulk_mod * (1 - 2 * p.poisson_ratio) / (2 * (1 + p.poisson_ratio))
-        = 3 * p.bulk_mod / (2 * (1 + p.poisson_ratio)) := by fsimp; ring1
-    have h2 : 3 * p.bulk_mod * p.poisson_ratio / (1 + p.poisson_ratio)
-          + 3 * p.bulk_mod * (1 - 2 * p.poisson_ratio) / (2 * (1 + p.poisson_ratio)) ≠ 0 := by
-      rw [e2]; positivity
-    have h3 : 0 < 3 * (3 * p.bulk_mod * p.poisson_ratio / (1 + p.poisson_ratio))
-          + 2 * (3 * p.bulk_mod * (1 - 2 * p.poisson_ratio) / (2 * (1 + p.poisson_ratio))) := by
-      rw [e1]; positivity
-    refine ⟨IsoMaterial.of_mul ?_ ?_ ?_ ?_ ?_ ?_, ?_, ?_, ⟨?_, ?_, ?_, ?_⟩, ?_, ?_⟩ <;> first | trivial | assumption | linarith | ring1 | (fsimp <;> ring1) | exact ⟨by linarith, by linarith⟩)
+      ∧ BlakeInitNuK.poisson_ratio p = p.poisson_ratio ∧ BlakeInitNuK.bulk_mod p = p.bulk_mod := by
+  obtain ⟨hm, -, e1, e2, e3, e4, e5, e6⟩ := initNuK_bridge p h
+  rw [e1, e2, e3, e4, e5, e6]
+  exact EPV.Blake.modNuK_ok _ hm
 
 /-- pair (ν, K): the constructor **accepts ⇔ the input is documented-valid** -/
 theorem initNuK_accepts_iff (p : BlakeInitNuK.P) :
     BlakeInitNuK.outcome p = .ok ↔ (DocumentedPair .poisson .bulk p.poisson_ratio p.bulk_mod) ∧ DocumentedProblem p.geometry p.ref_density p.cavity_radius p.pressure_scale := by
   constructor
   · intro h
-    obtain ⟨m, e1, e2, d, g1, g2⟩ := initNuK_ok p h
-    refine ⟨⟨g1, g2, _, _, m.shear_pos, m.bulk_pos, ?_, ?_⟩, d⟩
-    · rw [← e1]; exact m.kind_of.2.2.2.1
-    · rw [← e2]; exact m.kind_of.2.2.2.2.1
+    obtain ⟨hm, d, -⟩ := initNuK_bridge p h
+    exact ⟨(EPV.Blake.modNuK_accepts_iff _).mp hm, d⟩
   · rintro ⟨⟨hx, hy, L, G, hG, hB, h1, h2⟩, hgeo, hrho, hrad, hprs⟩
     simp only [Kind.of, Kind.GivenOk] at hx hy h1 h2
     have hLG : 0 < L + G := by linarith
@@ -267,52 +267,59 @@ theorem initNuK_accepts_iff (p : BlakeInitNuK.P) :
     have hc7 : BlakeInitNuK.c7 p := by simp only [epv_cond]; exact hprs
     simp only [epv_tree, hc0, hc1, hc2, hc3, hc4, hc5, hc6, hc7, if_true, if_false, ite_self]
 
+/-- pair (ν, K): **the constructed solver is in the domain of the C15 field theorems** — the attributes `_run` reads
+(a, ρ₀, P₀ as supplied, λ, G, ν, M as the constructor computed them) form an admissible problem
+(`EPV.Blake.Admissible`: one positive-definite isotropic material, ρ₀, a, P₀ > 0) -/
+theorem initNuK_admissible (p : BlakeInitNuK.P) (h : BlakeInitNuK.outcome p = .ok) :
+    EPV.Blake.Admissible
+      { cavity_radius := p.cavity_radius, lame_mod := BlakeInitNuK.lame_mod p, long_mod := BlakeInitNuK.long_mod p,
+        poisson_ratio := BlakeInitNuK.poisson_ratio p, pressure_scale := p.pressure_scale, ref_density := p.ref_density,
+        shear_mod := BlakeInitNuK.shear_mod p } := by
+  obtain ⟨m, -, -⟩ := initNuK_ok p h
+  obtain ⟨-, hρ, ha, hP⟩ := (initNuK_bridge p h).2.1
+  exact ⟨⟨_, _, m⟩, hρ, ha, hP⟩
+
 /-- pair (ν, K): the constructor returns or raises `ValueError`, nothing else -/
 theorem initNuK_total (p : BlakeInitNuK.P) : BlakeInitNuK.outcome p = .ok ∨ BlakeInitNuK.outcome p = .raise "ValueError" := by
+  unfold BlakeInitNuK.outcome
   epv_ok_or_valueError
 
 theorem initNuK_raise (p : BlakeInitNuK.P) (h : BlakeInitNuK.outcome p ≠ .ok) : BlakeInitNuK.outcome p = .raise "ValueError" :=
   (initNuK_total p).resolve_left h
 
-/-- pair (ν, M), constructor: an accepting path ends with one positive-definite isotropic material that
-reproduces the two supplied values; the problem parameters and the supplied values are the documented
-admissible ones -/
+/-- pair (ν, M): an accepting path of the constructor is an accepting path of `set_elastic_params` on the two
+supplied values, followed by the four problem-parameter checks; the six attributes are what it returned -/
+theorem initNuM_bridge (p : BlakeInitNuM.P) (h : BlakeInitNuM.outcome p = .ok) :
+    BlakeModNuM.outcome { poisson_ratio := p.poisson_ratio, long_mod := p.long_mod } = .ok ∧ DocumentedProblem p.geometry p.ref_density p.cavity_radius p.pressure_scale
+    ∧ BlakeInitNuM.lame_mod p = BlakeModNuM.lame_mod { poisson_ratio := p.poisson_ratio, long_mod := p.long_mod }
+    ∧ BlakeInitNuM.shear_mod p = BlakeModNuM.shear_mod { poisson_ratio := p.poisson_ratio, long_mod := p.long_mod }
+    ∧ BlakeInitNuM.youngs_mod p = BlakeModNuM.youngs_mod { poisson_ratio := p.poisson_ratio, long_mod := p.long_mod }
+    ∧ BlakeInitNuM.poisson_ratio p = BlakeModNuM.poisson_ratio { poisson_ratio := p.poisson_ratio, long_mod := p.long_mod }
+    ∧ BlakeInitNuM.bulk_mod p = BlakeModNuM.bulk_mod { poisson_ratio := p.poisson_ratio, long_mod := p.long_mod }
+    ∧ BlakeInitNuM.long_mod p = BlakeModNuM.long_mod { poisson_ratio := p.poisson_ratio, long_mod := p.long_mod } := by
+  unfold BlakeInitNuM.outcome at h
+  unfold BlakeInitNuM.lame_mod BlakeInitNuM.shear_mod BlakeInitNuM.youngs_mod BlakeInitNuM.poisson_ratio BlakeInitNuM.bulk_mod BlakeInitNuM.long_mod
+  epv_walk (
+    simp only [epv_tree, epv_cond, DocumentedProblem] at *
+    simp only [*, if_true, if_false, not_true_eq_false, not_false_eq_true, and_self, true_and]
+    exact ⟨rfl, rfl, rfl, rfl, rfl, rfl⟩)
+
+/-- pair (ν, M), constructor: on acceptance the six attributes are one positive-definite isotropic material that
+reproduces the two supplied values (the hypotheses of the C15 field theorems hold for the constructed solver) -/
 theorem initNuM_ok (p : BlakeInitNuM.P) (h : BlakeInitNuM.outcome p = .ok) :
     IsoMaterial (BlakeInitNuM.lame_mod p) (BlakeInitNuM.shear_mod p) (BlakeInitNuM.youngs_mod p) (BlakeInitNuM.poisson_ratio p) (BlakeInitNuM.bulk_mod p) (BlakeInitNuM.long_mod p)
-      ∧ BlakeInitNuM.poisson_ratio p = p.poisson_ratio ∧ BlakeInitNuM.long_mod p = p.long_mod ∧ DocumentedProblem p.geometry p.ref_density p.cavity_radius p.pressure_scale
-      ∧ Kind.GivenOk .poisson p.poisson_ratio ∧ Kind.GivenOk .long p.long_mod := by
-  epv_paths (
-    simp only [epv_cond] at *
-    simp only [epv_leaf, Kind.GivenOk]
-    simp only [not_le, not_lt] at *
-    have hM : 0 < p.long_mod := by linarith
-    have h1p : 0 < 1 - 2 * p.poisson_ratio := by linarith
-    have hn : 0 < 1 + p.poisson_ratio := by linarith
-    have hm : 0 < 1 - p.poisson_ratio := by linarith
-    have hm0 : 1 - p.poisson_ratio ≠ 0 := ne_of_gt hm
-    have e1 : 3 * (p.long_mod * p.poisson_ratio / (1 - p.poisson_ratio))
-          + 2 * (1 / 2 * p.long_mod * (1 - 2 * p.poisson_ratio) / (1 - p.poisson_ratio))
-        = p.long_mod * (1 + p.poisson_ratio) / (1 - p.poisson_ratio) := by fsimp; ring1
-    have e2 : p.long_mod * p.poisson_ratio / (1 - p.poisson_ratio)
-          + 1 / 2 * p.long_mod * (1 - 2 * p.poisson_ratio) / (1 - p.poisson_ratio)
-        = p.long_mod / (2 * (1 - p.poisson_ratio)) := by fsimp; ring1
-    have h2 : p.long_mod * p.poisson_ratio / (1 - p.poisson_ratio)
-          + 1 / 2 * p.long_mod * (1 - 2 * p.poisson_ratio) / (1 - p.poisson_ratio) ≠ 0 := by
-      rw [e2]; positivity
-    have h3 : 0 < 3 * (p.long_mod * p.poisson_ratio / (1 - p.poisson_ratio))
-          + 2 * (1 / 2 * p.long_mod * (1 - 2 * p.poisson_ratio) / (1 - p.poisson_ratio)) := by
-      rw [e1]; positivity
-    refine ⟨IsoMaterial.of_mul ?_ ?_ ?_ ?_ ?_ ?_, ?_, ?_, ⟨?_, ?_, ?_, ?_⟩, ?_, ?_⟩ <;> first | trivial | assumption | linarith | ring1 | (fsimp <;> ring1) | exact ⟨by linarith, by linarith⟩)
+      ∧ BlakeInitNuM.poisson_ratio p = p.poisson_ratio ∧ BlakeInitNuM.long_mod p = p.long_mod := by
+  obtain ⟨hm, -, e1, e2, e3, e4, e5, e6⟩ := initNuM_bridge p h
+  rw [e1, e2, e3, e4, e5, e6]
+  exact EPV.Blake.modNuM_ok _ hm
 
 /-- pair (ν, M): the constructor **accepts ⇔ the input is documented-valid** -/
 theorem initNuM_accepts_iff (p : BlakeInitNuM.P) :
     BlakeInitNuM.outcome p = .ok ↔ (DocumentedPair .poisson .long p.poisson_ratio p.long_mod) ∧ DocumentedProblem p.geometry p.ref_density p.cavity_radius p.pressure_scale := by
   constructor
   · intro h
-    obtain ⟨m, e1, e2, d, g1, g2⟩ := initNuM_ok p h
-    refine ⟨⟨g1, g2, _, _, m.shear_pos, m.bulk_pos, ?_, ?_⟩, d⟩
-    · rw [← e1]; exact m.kind_of.2.2.2.1
-    · rw [← e2]; exact m.kind_of.2.2.2.2.2
+    obtain ⟨hm, d, -⟩ := initNuM_bridge p h
+    exact ⟨(EPV.Blake.modNuM_accepts_iff _).mp hm, d⟩
   · rintro ⟨⟨hx, hy, L, G, hG, hB, h1, h2⟩, hgeo, hrho, hrad, hprs⟩
     simp only [Kind.of, Kind.GivenOk] at hx hy h1 h2
     have hLG : 0 < L + G := by linarith
@@ -336,36 +343,59 @@ theorem initNuM_accepts_iff (p : BlakeInitNuM.P) :
     have hc7 : BlakeInitNuM.c7 p := by simp only [epv_cond]; exact hprs
     simp only [epv_tree, hc0, hc1, hc2, hc3, hc4, hc5, hc6, hc7, if_true, if_false, ite_self]
 
+/-- pair (ν, M): **the constructed solver is in the domain of the C15 field theorems** — the attributes `_run` reads
+(a, ρ₀, P₀ as supplied, λ, G, ν, M as the constructor computed them) form an admissible problem
+(`EPV.Blake.Admissible`: one positive-definite isotropic material, ρ₀, a, P₀ > 0) -/
+theorem initNuM_admissible (p : BlakeInitNuM.P) (h : BlakeInitNuM.outcome p = .ok) :
+    EPV.Blake.Admissible
+      { cavity_radius := p.cavity_radius, lame_mod := BlakeInitNuM.lame_mod p, long_mod := BlakeInitNuM.long_mod p,
+        poisson_ratio := BlakeInitNuM.poisson_ratio p, pressure_scale := p.pressure_scale, ref_density := p.ref_density,
+        shear_mod := BlakeInitNuM.shear_mod p } := by
+  obtain ⟨m, -, -⟩ := initNuM_ok p h
+  obtain ⟨-, hρ, ha, hP⟩ := (initNuM_bridge p h).2.1
+  exact ⟨⟨_, _, m⟩, hρ, ha, hP⟩
+
 /-- pair (ν, M): the constructor returns or raises `ValueError`, nothing else -/
 theorem initNuM_total (p : BlakeInitNuM.P) : BlakeInitNuM.outcome p = .ok ∨ BlakeInitNuM.outcome p = .raise "ValueError" := by
+  unfold BlakeInitNuM.outcome
   epv_ok_or_valueError
 
 theorem initNuM_raise (p : BlakeInitNuM.P) (h : BlakeInitNuM.outcome p ≠ .ok) : BlakeInitNuM.outcome p = .raise "ValueError" :=
   (initNuM_total p).resolve_left h
 
-/-- pair (K, M), constructor: an accepting path ends with one positive-definite isotropic material that
-reproduces the two supplied values; the problem parameters and the supplied values are the documented
-admissible ones -/
+/-- pair (K, M): an accepting path of the constructor is an accepting path of `set_elastic_params` on the two
+supplied values, followed by the four problem-parameter checks; the six attributes are what it returned -/
+theorem initKM_bridge (p : BlakeInitKM.P) (h : BlakeInitKM.outcome p = .ok) :
+    BlakeModKM.outcome { bulk_mod := p.bulk_mod, long_mod := p.long_mod } = .ok ∧ DocumentedProblem p.geometry p.ref_density p.cavity_radius p.pressure_scale
+    ∧ BlakeInitKM.lame_mod p = BlakeModKM.lame_mod { bulk_mod := p.bulk_mod, long_mod := p.long_mod }
+    ∧ BlakeInitKM.shear_mod p = BlakeModKM.shear_mod { bulk_mod := p.bulk_mod, long_mod := p.long_mod }
+    ∧ BlakeInitKM.youngs_mod p = BlakeModKM.youngs_mod { bulk_mod := p.bulk_mod, long_mod := p.long_mod }
+    ∧ BlakeInitKM.poisson_ratio p = BlakeModKM.poisson_ratio { bulk_mod := p.bulk_mod, long_mod := p.long_mod }
+    ∧ BlakeInitKM.bulk_mod p = BlakeModKM.bulk_mod { bulk_mod := p.bulk_mod, long_mod := p.long_mod }
+    ∧ BlakeInitKM.long_mod p = BlakeModKM.long_mod { bulk_mod := p.bulk_mod, long_mod := p.long_mod } := by
+  unfold BlakeInitKM.outcome at h
+  unfold BlakeInitKM.lame_mod BlakeInitKM.shear_mod BlakeInitKM.youngs_mod BlakeInitKM.poisson_ratio BlakeInitKM.bulk_mod BlakeInitKM.long_mod
+  epv_walk (
+    simp only [epv_tree, epv_cond, DocumentedProblem] at *
+    simp only [*, if_true, if_false, not_true_eq_false, not_false_eq_true, and_self, true_and]
+    exact ⟨rfl, rfl, rfl, rfl, rfl, rfl⟩)
+
+/-- pair (K, M), constructor: on acceptance the six attributes are one positive-definite isotropic material that
+reproduces the two supplied values (the hypotheses of the C15 field theorems hold for the constructed solver) -/
 theorem initKM_ok (p : BlakeInitKM.P) (h : BlakeInitKM.outcome p = .ok) :
     IsoMaterial (BlakeInitKM.lame_mod p) (BlakeInitKM.shear_mod p) (BlakeInitKM.youngs_mod p) (BlakeInitKM.poisson_ratio p) (BlakeInitKM.bulk_mod p) (BlakeInitKM.long_mod p)
-      ∧ BlakeInitKM.bulk_mod p = p.bulk_mod ∧ BlakeInitKM.long_mod p = p.long_mod ∧ DocumentedProblem p.geometry p.ref_density p.cavity_radius p.pressure_scale
-      ∧ Kind.GivenOk .bulk p.bulk_mod ∧ Kind.GivenOk .long p.long_mod := by
-  epv_paths (
-    simp only [epv_cond] at *
-    simp only [epv_leaf, Kind.GivenOk]
-    simp only [not_le, not_lt] at *
-    have h1 : 0 < 3 * p.bulk_mod + p.long_mod := by linarith
-    refine ⟨IsoMaterial.of_mul ?_ ?_ ?_ ?_ ?_ ?_, ?_, ?_, ⟨?_, ?_, ?_, ?_⟩, ?_, ?_⟩ <;> first | trivial | assumption | linarith | ring1 | (fsimp <;> ring1) | exact ⟨by linarith, by linarith⟩)
+      ∧ BlakeInitKM.bulk_mod p = p.bulk_mod ∧ BlakeInitKM.long_mod p = p.long_mod := by
+  obtain ⟨hm, -, e1, e2, e3, e4, e5, e6⟩ := initKM_bridge p h
+  rw [e1, e2, e3, e4, e5, e6]
+  exact EPV.Blake.modKM_ok _ hm
 
 /-- pair (K, M): the constructor **accepts ⇔ the input is documented-valid** -/
 theorem initKM_accepts_iff (p : BlakeInitKM.P) :
     BlakeInitKM.outcome p = .ok ↔ (DocumentedPair .bulk .long p.bulk_mod p.long_mod) ∧ DocumentedProblem p.geometry p.ref_density p.cavity_radius p.pressure_scale := by
   constructor
   · intro h
-    obtain ⟨m, e1, e2, d, g1, g2⟩ := initKM_ok p h
-    refine ⟨⟨g1, g2, _, _, m.shear_pos, m.bulk_pos, ?_, ?_⟩, d⟩
-    · rw [← e1]; exact m.kind_of.2.2.2.2.1
-    · rw [← e2]; exact m.kind_of.2.2.2.2.2
+    obtain ⟨hm, d, -⟩ := initKM_bridge p h
+    exact ⟨(EPV.Blake.modKM_accepts_iff _).mp hm, d⟩
   · rintro ⟨⟨hx, hy, L, G, hG, hB, h1, h2⟩, hgeo, hrho, hrad, hprs⟩
     simp only [Kind.of, Kind.GivenOk] at hx hy h1 h2
     have hLG : 0 < L + G := by linarith
@@ -387,11 +417,28 @@ theorem initKM_accepts_iff (p : BlakeInitKM.P) :
     have hc8 : BlakeInitKM.c8 p := by simp only [epv_cond]; exact hprs
     simp only [epv_tree, hc0, hc1, hc2, hc3, hc5, hc6, hc7, hc8, if_true, if_false, ite_self]
 
+/-- pair (K, M): **the constructed solver is in the domain of the C15 field theorems** — the attributes `_run` reads
+(a, ρ₀, P₀ as supplied, λ, G, ν, M as the constructor computed them) form an admissible problem
+(`EPV.Blake.Admissible`: one positive-definite isotropic material, ρ₀, a, P₀ > 0) -/
+theorem initKM_admissible (p : BlakeInitKM.P) (h : BlakeInitKM.outcome p = .ok) :
+    EPV.Blake.Admissible
+      { cavity_radius := p.cavity_radius, lame_mod := BlakeInitKM.lame_mod p, long_mod := BlakeInitKM.long_mod p,
+        poisson_ratio := BlakeInitKM.poisson_ratio p, pressure_scale := p.pressure_scale, ref_density := p.ref_density,
+        shear_mod := BlakeInitKM.shear_mod p } := by
+  obtain ⟨m, -, -⟩ := initKM_ok p h
+  obtain ⟨-, hρ, ha, hP⟩ := (initKM_bridge p h).2.1
+  exact ⟨⟨_, _, m⟩, hρ, ha, hP⟩
+
 /-- pair (K, M): the constructor returns or raises `ValueError`, nothing else -/
 theorem initKM_total (p : BlakeInitKM.P) : BlakeInitKM.outcome p = .ok ∨ BlakeInitKM.outcome p = .raise "ValueError" := by
+  unfold BlakeInitKM.outcome
   epv_ok_or_valueError
 
 theorem initKM_raise (p : BlakeInitKM.P) (h : BlakeInitKM.outcome p ≠ .ok) : BlakeInitKM.outcome p = .raise "ValueError" :=
   (initKM_total p).resolve_left h
+
+/-- non-vacuity: the default problem, specified through the pair (K, M), is accepted -/
+example : BlakeInitKM.outcome { bulk_mod := 125000000000 / 3, long_mod := 75000000000, geometry := 3, ref_density := 3000, cavity_radius := 1 / 10, pressure_scale := 1000000 } = .ok := by
+  simp only [epv_tree, epv_cond]; norm_num
 
 end EPV.C20
